@@ -379,4 +379,112 @@ def scaleFin (s b : Rat) (mn mx : Rat) (bmn bmx : Int) (v : Rat) : Int :=
   let (pmn, pmx) := if a ≤ c then (a, c) else (c, a)
   clipI (rint ((v - b) / s)) (clipI pmn bmn bmx) (clipI pmx bmn bmx)
 
+/-! ## `AnalyzeImage.to_file_map(file_map, dtype=None)` with its header bookkeeping (analyze.py:991-1061)
+
+The on-disk type can be chosen in two ways: it is the header's current data type (`set_data_dtype`, the constructor's
+`dtype=` / `header=`), or it is the `dtype=` SAVE ARGUMENT of `to_file_map` / `to_filename` / `nib.save` / `to_bytes`,
+which overrides the header for the duration of the call.  The header's slope / intercept fields are "consumable":
+NaN (`none`) means "calculate the scaling", anything else means "the caller fixed the scaling: write the array as it
+is" (`ArrayWriter(data, out_dtype, check_scaling=False)`).  All of it is restored in the `finally:` block. -/
+
+/-- a header data type: an integer type (by its range) or a float type (significand bits) -/
+inductive DT
+  | int (o : OutT)
+  | flt (prec : Nat)
+  deriving DecidableEq, Repr
+
+/-- the consumable header fields (`none` = NaN).  A class without the field never reads it. -/
+structure Hdr where
+  dtype : DT
+  slope : Option Rat
+  inter : Option Rat
+  deriving DecidableEq, Repr
+
+/-- `header_class.has_data_slope`, `.has_data_intercept` (analyze.py:193-194, spm99analyze.py:43-44,
+    nifti1.py:826-827); re-checked against the source by `Generated/C02Caps.lean` -/
+structure Caps where
+  hasSlope : Bool
+  hasInter : Bool
+  deriving DecidableEq, Repr
+
+def Cls.caps : Cls → Caps
+  | .nifti => ⟨true, true⟩
+  | .spm => ⟨true, false⟩
+  | .analyze => ⟨false, false⟩
+  | .mgh => ⟨false, false⟩
+
+/-- `make_array_writer(data, out, has_slope, has_intercept)` (arraywriters.py:720-762): which writer class -/
+def makeWriter (k : Caps) : Except Err Writer :=
+  if k.hasInter && !k.hasSlope then .error .value
+  else if k.hasInter then .ok .slopeInter
+  else if k.hasSlope then .ok .slope
+  else .ok .plain
+
+/-- the on-disk type of the call: `hdr.set_data_dtype(dtype)` when the argument is given, else the header's own
+    (analyze.py:1011-1014).  `none`: a float on-disk type — outside this model (no integer rescaling). -/
+def effectiveOut (hd : DT) (arg : Option DT) : Option OutT :=
+  match arg.getD hd with
+  | .int o => some o
+  | .flt _ => none
+
+/-- the body of the `try:` block for an integer on-disk type `o`, header fields read as `(slope, inter)`
+    (`none` = NaN or field absent).  Returns what C02 observes — `(stored slope, stored inter, raw integers)` — and
+    the header as the block leaves it (before `finally:`). -/
+def tfmBody (c : Cls) (rnd : Rat → Rat) (p32 : Nat) (i : InT) (o : OutT) (h1 : Hdr) (slope inter : Option Rat)
+    (data : List Val) : Except Err (Rat × Rat × List Int) × Hdr :=
+  let k := c.caps
+  -- scale_me = np.all(np.isnan((slope, inter)))          (analyze.py:1019)
+  if slope.isNone && inter.isNone then
+    match makeWriter k with
+    | .error e => (.error e, h1)
+    | .ok w =>
+      match writerScale w rnd p32 i o data with           -- make_array_writer(...): constructor + calc_scale
+      | .error e => (.error e, h1)
+      | .ok (s, b) =>
+        match setSlopeInter c s b with                    -- hdr.set_slope_inter(*get_slope_inter(arr_writer))
+        | .error e => (.error e, h1)
+        | .ok () =>
+          let h2 : Hdr := { h1 with slope := if k.hasSlope then some s else h1.slope,
+                                    inter := if k.hasInter then some b else h1.inter }
+          let (mn, mx) := writingRange w i data
+          match arrayToFile i o s b mn mx (needsNan2zero i data) data with
+          | .error e => (.error e, h2)
+          | .ok raw => (.ok (s, b, raw), h2)
+  else
+    -- the caller fixed the scaling: ArrayWriter(data, out_dtype, check_scaling=False).to_fileobj  (analyze.py:1025)
+    match arrayToFile i o 1 0 none none (needsNan2zero i data) data with
+    | .error e => (.error e, h1)
+    | .ok raw => (.ok (slope.getD 1, inter.getD 0, raw), h1)
+
+/-- `img.to_file_map(fm, dtype=arg)` for the Analyze family (NIfTI-1/2 single and pair, SPM99, SPM2, Analyze):
+    the observable result and the image header AFTER the call.  `none` = float on-disk type (not modelled). -/
+def toFileMap (c : Cls) (rnd : Rat → Rat) (p32 : Nat) (i : InT) (h : Hdr) (arg : Option DT) (data : List Val) :
+    Option (Except Err (Rat × Rat × List Int) × Hdr) :=
+  match effectiveOut h.dtype arg with
+  | none => none
+  | some o =>
+    let k := c.caps
+    -- data_dtype = hdr.get_data_dtype(); hdr.set_data_dtype(dtype); out_dtype = hdr.get_data_dtype()
+    let h1 : Hdr := { h with dtype := .int o }
+    let slope := if k.hasSlope then h.slope else none
+    let inter := if k.hasInter then h.inter else none
+    let (res, h2) := tfmBody c rnd p32 i o h1 slope inter data
+    -- finally: restore dtype, slope, inter (analyze.py:1053-1061)
+    let h3 : Hdr := { h2 with dtype := h.dtype,
+                              slope := if k.hasSlope then slope else h2.slope,
+                              inter := if k.hasInter then inter else h2.inter }
+    some (res, h3)
+
+/-- a history of saves on ONE image: each `to_file_map(dtype=arg)` sees the header the previous one left -/
+def saveSeq (c : Cls) (rnd : Rat → Rat) (p32 : Nat) (i : InT) (data : List Val) :
+    Hdr → List (Option DT) → Option (List (Except Err (Rat × Rat × List Int)) × Hdr)
+  | h, [] => some ([], h)
+  | h, a :: rest =>
+    match toFileMap c rnd p32 i h a data with
+    | none => none
+    | some (r, h') =>
+      match saveSeq c rnd p32 i data h' rest with
+      | none => none
+      | some (rs, hf) => some (r :: rs, hf)
+
 end Nb.C02
